@@ -519,6 +519,7 @@ func ruleLoadFilter(c *Ctx, r *R) {
 	var filt *ast.IfStmt
 	var filtLoop *ast.RangeStmt
 	var filtFn *ast.FuncDecl
+	positiveKept := ""
 	for _, hfd := range c.withHelpers(fd) {
 		if filt != nil {
 			break
@@ -533,6 +534,21 @@ func ruleLoadFilter(c *Ctx, r *R) {
 			ifs, ok := s.(*ast.IfStmt)
 			if !ok {
 				continue
+			}
+			// positive form: if !strings.HasSuffix(f, "_test.go") { kept = append(kept, f) }
+			if u, ok := unparen(ifs.Cond).(*ast.UnaryExpr); ok && u.Op == token.NOT && ifs.Else == nil {
+				if pc, ok := unparen(u.X).(*ast.CallExpr); ok && c.CalleeName(pc) == "strings.HasSuffix" && len(pc.Args) == 2 {
+					if suf, ok := c.ConstString(pc.Args[1]); ok && suf == "_test.go" {
+						for _, bs := range ifs.Body.List {
+							if as, ok := bs.(*ast.AssignStmt); ok && len(as.Rhs) == 1 {
+								if ac, ok := unparen(as.Rhs[0]).(*ast.CallExpr); ok && c.CalleeName(ac) == "builtin.append" {
+									filt, filtLoop = ifs, rs
+									positiveKept = c.Src(as.Lhs[0])
+								}
+							}
+						}
+					}
+				}
 			}
 			call, ok := unparen(ifs.Cond).(*ast.CallExpr)
 			if !ok || c.CalleeName(call) != "strings.HasSuffix" || len(call.Args) != 2 {
@@ -551,7 +567,7 @@ func ruleLoadFilter(c *Ctx, r *R) {
 		return
 	}
 	// value flow: the list iterated for rawLoadFile is the filtered one
-	var kept string
+	kept := positiveKept
 	for _, s := range filtLoop.Body.List {
 		if s.Pos() > filt.Pos() {
 			if as, ok := s.(*ast.AssignStmt); ok && len(as.Rhs) == 1 {
@@ -929,12 +945,22 @@ func ruleLitDelegate(c *Ctx, r *R) {
 // LOAD-SORT (C16): every tree loaded from files passes through treeSort before it is ordered/compiled.
 func ruleLoadSort(c *Ctx, r *R) {
 	n := 0
+	var fns []*ast.FuncDecl
 	for _, name := range []string{"loadImports", "loadPackage", "loadFile"} {
 		fd := c.Func(name)
 		if fd == nil {
 			r.undecided(name, "-", "not found")
 			continue
 		}
+		fns = append(fns, c.withHelpers(fd)...)
+	}
+	done := map[*ast.FuncDecl]bool{}
+	for _, fd := range fns {
+		if done[fd] {
+			continue
+		}
+		done[fd] = true
+		name := c.fnName(fd)
 		ast.Inspect(fd.Body, func(m ast.Node) bool {
 			as, ok := m.(*ast.AssignStmt)
 			if !ok || len(as.Rhs) != 1 {
